@@ -35,6 +35,15 @@ def c18_5(rep, ix):
                 if not par_call:
                     rep.bad(R, ix.site(f, c), "semantic code does not test for layout token types", "`%s`: a token-type constant of a layout token is used (comparison with a token's type)" % u(c),
                             key="%s|layout type %s" % (q, c.attr))
+    # helpers that hand a position back to their caller (`return ctx.start.line`, a record of line and column): the position is followed into
+    # every caller, where the result of the call is a position like any other
+    CARRIERS.clear()
+    for q, f in sorted(ix.funcs.items()):
+        if f.mod in SEMANTIC_MODULES and q == f.qual and q not in ix.known:
+            rets = [r for r in ast.walk(f.node) if isinstance(r, ast.Return) and r.value is not None]
+            if rets and all(not is_exception_return(r) for r in rets) and any(pos_expr(r.value, set()) for r in rets) \
+                    and not any(isinstance(n, ast.Attribute) and isinstance(n.ctx, ast.Store) for n in ast.walk(f.node)):
+                CARRIERS.add(f.name)
     for q, f in sorted(ix.funcs.items()):
         if f.mod not in SEMANTIC_MODULES:
             continue
@@ -66,7 +75,9 @@ def c18_5(rep, ix):
                 if not uses:
                     continue
                 txt = " ".join(u(h).split())[:100]
-                if isinstance(s, ast.Raise) or is_exception_return(s):
+                if isinstance(s, ast.Return) and f.name in CARRIERS and q == f.qual:
+                    rep.ok(R, ix.site(f, s), "`%s`: position handed to the callers, where it is followed" % txt)
+                elif isinstance(s, ast.Raise) or is_exception_return(s):
                     rep.ok(R, ix.site(f, s), "`%s`: position used in an exception message" % txt)
                 elif isinstance(s, ast.Assign) and len(s.targets) == 1 and isinstance(s.targets[0], ast.Name) and s.targets[0].id in tainted:
                     rep.ok(R, ix.site(f, s), "`%s`: position kept in a local that only reaches exception messages" % txt)
@@ -90,7 +101,12 @@ def pos_expr(e, tainted):
     return any(pos_atom(x, tainted) for x in ast.walk(e))
 
 
+CARRIERS = set()
+
+
 def pos_atom(e, tainted):
+    if isinstance(e, ast.Call) and ((isinstance(e.func, ast.Name) and e.func.id in CARRIERS) or (isinstance(e.func, ast.Attribute) and e.func.attr in CARRIERS)):
+        return True
     if isinstance(e, ast.Attribute) and e.attr in POS_ATTRS and looks_like_tree(e.value, tainted):
         return True
     if isinstance(e, ast.Name) and e.id in tainted:
